@@ -23,6 +23,8 @@ structure ConnSt where
   cg : ConnGuard.State := ConnGuard.init { max := 0 }
   obs : Bool := true
   stop : Stop.State := Stop.init 16
+  /-- C10: calls whose answer the client has been seen to receive (`st resp k`) -/
+  stopSeen : List Nat := []
 
 def cnKv (key : String) (tok : String) : Option String :=
   if tok.startsWith (key ++ "=") then some (tok.drop (key.length + 1)).toString else none
@@ -218,12 +220,22 @@ def connVerb (st : ConnSt) (ws : List String) : Option (ConnSt × String) :=
   match ws with
   | ["case", _, "stop", cap, p] =>
     match cnKvNat "cap" cap, validStopPath p with
-    | some cap, true => some ({ st with stop := Stop.init cap }, "case")
+    | some cap, true => some ({ st with stop := Stop.init cap, stopSeen := [] }, "case")
     | _, _ => some (st, "bad-op")
   | "case" :: _ :: "stop" :: _ => some (st, "bad-op")
   | "st" :: rest =>
     match stopVerb st.stop rest with
-    | some (s', out) => some ({ st with stop := s' }, out)
+    | some (s', out) =>
+      match rest with
+      | ["resp", k] => some ({ st with stop := s', stopSeen := (k.toNat?.getD 0) :: st.stopSeen }, out)
+      | ["eof", c] =>
+        -- TCP delivers what was written before the close: an answer the machine has on the wire
+        -- when the connection task ends must have reached the (connected) client before its EOF
+        let cN := c.toNat?.getD 0
+        let undelivered := s'.calls.any (fun y => y.conn == cN && y.phase == .onWire && !st.stopSeen.contains y.id)
+        let connected := s'.conns.any (fun x => x.id == cN && !x.peerGone)
+        some ({ st with stop := s' }, if out == "ok" && connected && undelivered then "impossible" else out)
+      | _ => some ({ st with stop := s' }, out)
     | none => some (st, "bad-op")
   | ["case", _, "conn", m, h, w, o, p] =>
     match cnKvNat "max" m, cnKvBool "http" h, cnKvBool "ws" w, cnKvBool "obs" o, validPath p with
